@@ -1793,6 +1793,19 @@ namespace gch
         return p;
       }
 
+      // Raw pointers to other (convertible) element types; these appear as the source of the
+      // memcpy paths (eg. `unsigned *` or `small_vector<unsigned>::iterator` into `int`).
+      template <typename U,
+        typename std::enable_if<! std::is_same<typename std::remove_cv<U>::type,
+                                               value_ty>::value>::type * = nullptr>
+      static constexpr
+      U *
+      to_address (U *p) noexcept
+      {
+        static_assert (! std::is_function<U>::value, "U is a function pointer.");
+        return p;
+      }
+
       template <typename Pointer,
         typename std::enable_if<has_ptr_traits_to_address<Pointer>::value>::type * = nullptr>
       static constexpr
